@@ -334,3 +334,8 @@ def nontrivial(case, result):
     if t in ("f32", "f64"):
         return v.bit_length() > FMT[t][1]
     return v.bit_length() * 2 > min(bits, PBITS.get(t, bits))
+
+
+def prebuild(root):
+    """translator: regenerate coq/Generated/ConvGen.v from /repo/src (the ToPrimitive / FromPrimitive macros are proved equal to the model in Proofs/ConvGenTieC19.v)"""
+    return run_translator(root, "rs2v_conv.py", "C19")
